@@ -38,7 +38,7 @@ type holder17 struct {
 
 var h17 map[string]*holder17
 
-// issuer / serial assignment of Containers.tla: a,b under CA1, c,x under CA2; serials a=1 b=2 c=1 x=2
+// issuer / serial assignment of Containers.tla: a,b under CA1, c,x under CA2; serials a=77 b=-77 c=77 x=-77
 func setup17() error {
 	if h17 != nil {
 		return nil
@@ -69,7 +69,7 @@ func setup17() error {
 	for _, a := range []struct {
 		name, ca string
 		serial   int64
-	}{{"a", "CA1", 1}, {"b", "CA1", 2}, {"c", "CA2", 1}, {"x", "CA2", 2}} {
+	}{{"a", "CA1", 77}, {"b", "CA1", -77}, {"c", "CA2", 77}, {"x", "CA2", -77}} {
 		h := &holder17{}
 		ca := ca1
 		if a.ca == "CA2" {
@@ -87,7 +87,12 @@ func setup17() error {
 			return err
 		}
 		h.rsaKey, _ = rsa.GenerateKey(rand.Reader, 1024)
-		rt := &stdx509.Certificate{SerialNumber: big.NewInt(a.serial), Subject: pkix.Name{CommonName: "rsa holder " + a.name}, NotBefore: pkiEpoch.Add(-time.Hour),
+		// (the standard library, which issues the RSA certificates, refuses negative serial numbers: 77 / 78 there)
+		rserial := a.serial
+		if rserial < 0 {
+			rserial = 1 - rserial
+		}
+		rt := &stdx509.Certificate{SerialNumber: big.NewInt(rserial), Subject: pkix.Name{CommonName: "rsa holder " + a.name}, NotBefore: pkiEpoch.Add(-time.Hour),
 			NotAfter: pkiEpoch.Add(10 * 365 * 24 * time.Hour), KeyUsage: stdx509.KeyUsageDigitalSignature | stdx509.KeyUsageKeyEncipherment}
 		rder, err := stdx509.CreateCertificate(rand.Reader, rt, rsaCACert[a.ca], &h.rsaKey.PublicKey, rsaCA[a.ca])
 		if err != nil {
